@@ -1,7 +1,7 @@
 (* Proofs for C10: the accrual expansion of Model/Ledger.v (repaired variant [_fixed]) conserves
    every account's bookings, every generated transaction balances, the accrual account nets to
    zero, parts are dated at the period ends; the pinned variant drops equity legs. *)
-From Coq Require Import ZArith QArith Qpower List Bool Lia.
+From Coq Require Import ZArith QArith Qpower List Bool Lia Permutation.
 From Knut Require Import Model.Str Model.Dec Model.Date Model.Account Model.Ledger.
 From Knut Require Import Spec.DateSpec Spec.AccrualSpec.
 From Knut Require Import Proofs.DecProofs Proofs.DateProofs Proofs.DecValueAccrual.
@@ -769,6 +769,285 @@ Proof.
   - apply Forall_forall. intros t Hin. rewrite forallb_forall in E1. apply balanced_b_sound. exact (E1 t Hin).
   - exact (conserve_b_sound _ _ E2).
   - intros Hnot c. rewrite (conserve_b_sound _ _ E2). apply not_in_bookings_src. exact Hnot.
+Qed.
+
+(* clause 5 *)
+Lemma list_eqb_refl {A} (eqb : A -> A -> bool) : (forall x, eqb x x = true) -> forall l, list_eqb eqb l l = true.
+Proof. intros H. induction l as [|x r IH]; cbn [list_eqb]; [reflexivity|]. rewrite H, IH. reflexivity. Qed.
+
+Lemma targets_b_sound targets ts : targets_b targets ts = true -> Forall (fun t => t_targets t = targets) ts.
+Proof.
+  unfold targets_b. intros H. rewrite forallb_forall in H. apply Forall_forall. intros t Hin. specialize (H t Hin).
+  destruct targets as [l1|], (t_targets t) as [l2|]; try discriminate; [|reflexivity].
+  apply (list_eqb_eq s_eqb s_eqb_eq) in H. subst. reflexivity.
+Qed.
+
+Lemma targets_b_complete targets ts : Forall (fun t => t_targets t = targets) ts -> targets_b targets ts = true.
+Proof.
+  unfold targets_b. intros H. apply forallb_forall. intros t Hin. rewrite Forall_forall in H. rewrite (H t Hin).
+  destruct targets as [l|]; [|reflexivity]. apply list_eqb_refl. exact s_eqb_refl.
+Qed.
+
+Lemma verdict_sound_targets s ac ends ts :
+  accrual_verdict s ac ends ts = 0 -> Forall (fun t => t_targets t = st_targets s) ts.
+Proof.
+  unfold accrual_verdict. intros H.
+  destruct (negb (forallb (fun t => balanced_b (t_postings t)) ts)); [discriminate|].
+  destruct (negb (conserve_b (st_bookings s) ts)); [discriminate|].
+  destruct (negb (in_bookings_b (ac_account ac) (st_bookings s)) && negb (accrual_zero_b (ac_account ac) ts)); [discriminate|].
+  destruct (negb (dates_b (st_date s) (st_desc s) (ac_account ac) ends (st_bookings s) ts)); [discriminate|].
+  destruct (targets_b (st_targets s) ts) eqn:E; cbn [negb] in H; [|discriminate].
+  exact (targets_b_sound _ _ E).
+Qed.
+
+(* completeness of clauses 1-3: what satisfies the statements is accepted *)
+Lemma balanced_b_complete ps : balanced ps -> balanced_b ps = true.
+Proof.
+  unfold balanced_b. intros H. apply forallb_forall. intros p _. apply Qeq_bool_iff.
+  rewrite com_total_r_eq. apply H.
+Qed.
+
+Lemma conserve_b_complete bs ts :
+  (forall a c, (booked_txns a c ts == booked_src a c bs)%Q) -> conserve_b bs ts = true.
+Proof.
+  unfold conserve_b, booked_txns. intros H. apply forallb_forall. intros [a c] _. cbn [fst snd].
+  apply Qeq_bool_iff. rewrite booked_r_eq, booked_src_r_eq. apply H.
+Qed.
+
+Lemma accrual_zero_b_complete acc ts : (forall c, (booked_txns acc c ts == 0)%Q) -> accrual_zero_b acc ts = true.
+Proof.
+  unfold accrual_zero_b, booked_txns. intros H. apply forallb_forall. intros c _.
+  apply Qeq_bool_iff. rewrite booked_r_eq. apply H.
+Qed.
+
+(* The repaired model's own output passes clauses 1, 2, 3 and 5 of the executable statement: the
+   verdict on it can only be 0 or 4.  (That it is 0, i.e. that clause 4 -- the order-free
+   comparison of dates/descriptions/leg accounts -- accepts the model's output, is not proved;
+   the driver evaluates it on every case of every run and reports "!model-fails-spec-clause-4".) *)
+Lemma model_meets_spec_partial s ac ends ts :
+  txn_create_fixed s = MOk ts -> st_accrual s = Some ac ->
+  accrual_verdict s ac ends ts = 0 \/ accrual_verdict s ac ends ts = 4.
+Proof.
+  intros H Hac. unfold accrual_verdict.
+  assert (E1 : forallb (fun t => balanced_b (t_postings t)) ts = true).
+  { apply forallb_forall. intros t Hin. apply balanced_b_complete.
+    pose proof (create_each_balances _ _ _ H) as HF. rewrite Forall_forall in HF. exact (HF t Hin). }
+  rewrite E1. cbn [negb].
+  rewrite (conserve_b_complete _ _ (fun a c => create_fixed_conserve s ac ts a c H Hac)). cbn [negb].
+  assert (E3 : negb (in_bookings_b (ac_account ac) (st_bookings s)) && negb (accrual_zero_b (ac_account ac) ts) = false).
+  { destruct (in_bookings_b (ac_account ac) (st_bookings s)) eqn:Ein; [reflexivity|]. cbn [negb andb].
+    rewrite accrual_zero_b_complete; [reflexivity|].
+    intros c. apply (create_fixed_accrual_zero s ac ts c H Hac). exact (in_bookings_b_false _ _ Ein). }
+  rewrite E3.
+  destruct (dates_b (st_date s) (st_desc s) (ac_account ac) ends (st_bookings s) ts); cbn [negb]; [|right; reflexivity].
+  rewrite (targets_b_complete _ _ (create_targets _ _ _ H)). left. reflexivity.
+Qed.
+
+
+(* ---------------------------------------------------------------- clause 4 on the model's output *)
+
+Lemma observed_key_pair acc x c q d desc tg :
+  observed_key acc (mkTxn d desc (pair_build acc x c q dec_nil) tg) = Some (d, desc, x, c).
+Proof.
+  unfold observed_key. cbn [t_postings t_date t_desc].
+  destruct (pair_build_is_pair acc x c q) as [H|H]; rewrite H; unfold pair_postings; cbn [rev app];
+    cbn [p_acc p_other p_com]; rewrite !a_eqb_refl, s_eqb_refl; cbn [andb orb].
+  - reflexivity.
+  - rewrite orb_true_r. destruct (a_eqb x acc) eqn:E; [apply a_eqb_eq in E; subst x|]; reflexivity.
+Qed.
+
+Definition part_keys (desc : str) (n : Z) (a : account) (c : commodity) (i : Z) (ends : list Z) : list key :=
+  map (fun ie => (snd ie, part_desc desc (fst ie) n, a, c)) (numbered_from i ends).
+
+Lemma accrual_parts_keys desc tg acc p amount rem n ends : forall i,
+  map (observed_key acc) (accrual_parts desc tg acc p amount rem n i ends)
+  = map Some (part_keys desc n (p_acc p) (p_com p) (i + 1) ends).
+Proof.
+  induction ends as [|dt rest IH]; intros i; cbn [accrual_parts map numbered_from part_keys]; [reflexivity|].
+  rewrite observed_key_pair. cbn [fst snd]. unfold part_desc at 1. f_equal. apply IH.
+Qed.
+
+Lemma all_some_map_some {A} (l : list A) : all_some (map Some l) = Some l.
+Proof. induction l as [|x r IH]; cbn [map all_some]; [reflexivity|]. rewrite IH. reflexivity. Qed.
+
+Lemma all_some_app {A} (l1 l2 : list (option A)) k1 k2 :
+  all_some l1 = Some k1 -> all_some l2 = Some k2 -> all_some (l1 ++ l2) = Some (k1 ++ k2).
+Proof.
+  revert k1. induction l1 as [|x r IH]; intros k1 H1 H2; cbn [all_some app] in *.
+  - injection H1 as H1. subst k1. exact H2.
+  - destruct x as [x|]; [|discriminate]. destruct (all_some r) as [kr|] eqn:E; [|discriminate].
+    injection H1 as H1. subst k1. rewrite (IH kr eq_refl H2). reflexivity.
+Qed.
+
+Lemma expand_posting_fixed_keys t ac p l part :
+  new_partition (mkPeriod (ac_start ac) (ac_end ac)) (ac_interval ac) 0 = POk part ->
+  expand_posting_fixed t ac p = MOk l ->
+  all_some (map (observed_key (ac_account ac)) l)
+  = Some (leg_keys (t_date t) (t_desc t) (end_dates part) (p_acc p) (p_com p)).
+Proof.
+  intros Hpart H. apply expand_posting_inv in H. unfold r1, rebook_fixed in H.
+  destruct H as [[HIE Hl]|[HIE [part' [amount [rem [Hnp [Hne [Hq Hl]]]]]]]]; rewrite HIE in Hl; cbn [negb] in Hl; subst l;
+    unfold leg_keys; rewrite HIE.
+  - unfold rebooked. cbn [map]. rewrite observed_key_pair. reflexivity.
+  - rewrite Hpart in Hnp. injection Hnp as Hp. subst part'. cbn [app].
+    rewrite accrual_parts_keys. rewrite all_some_map_some. unfold part_keys.
+    replace (Z.of_nat (length (end_dates part))) with (Z.of_nat (length (periods part)))
+      by (unfold end_dates; rewrite map_length; reflexivity).
+    reflexivity.
+Qed.
+
+Lemma expand_postings_fixed_keys t ac part ps : forall l,
+  new_partition (mkPeriod (ac_start ac) (ac_end ac)) (ac_interval ac) 0 = POk part ->
+  expand_postings_fixed t ac ps = MOk l ->
+  all_some (map (observed_key (ac_account ac)) l)
+  = Some (flat_map (fun p => leg_keys (t_date t) (t_desc t) (end_dates part) (p_acc p) (p_com p)) ps).
+Proof.
+  induction ps as [|p rest IH]; intros l Hpart H; cbn [expand_postings_fixed expand_postings_gen] in H.
+  - injection H as H. subst l. reflexivity.
+  - apply mbind_ok in H. destruct H as [l1 [H1 H]].
+    apply mbind_ok in H. destruct H as [l2 [H2 H]]. injection H as H. subst l.
+    rewrite map_app. cbn [flat_map].
+    apply all_some_app; [exact (expand_posting_fixed_keys t ac p l1 part Hpart H1)|exact (IH l2 Hpart H2)].
+Qed.
+
+(* the legs in posting order are the legs in booking order up to swapping the two sides of a booking *)
+Lemma postings_create_keys date desc ends bs : forall ps,
+  postings_create bs = MOk ps ->
+  Permutation (expected_keys date desc ends bs)
+              (flat_map (fun p => leg_keys date desc ends (p_acc p) (p_com p)) ps).
+Proof.
+  induction bs as [|b rest IH]; intros ps H; cbn [postings_create] in H.
+  - injection H as H. subst ps. constructor.
+  - apply mbind_ok in H. destruct H as [u1 [_ H]].
+    apply mbind_ok in H. destruct H as [u2 [_ H]].
+    apply mbind_ok in H. destruct H as [ps' [Hps' H]].
+    injection H as H. subst ps. cbn [expected_keys flat_map]. rewrite flat_map_app.
+    apply Permutation_app; [|exact (IH ps' Hps')].
+    destruct (pair_build_is_pair (b_credit b) (b_debit b) (b_com b) (b_qty b)) as [Hp|Hp]; rewrite Hp;
+      unfold pair_postings; cbn [rev app flat_map p_acc p_com]; rewrite app_nil_r.
+    + apply Permutation_refl.
+    + apply Permutation_app_comm.
+Qed.
+
+Lemma perm_filter_length {A} (f : A -> bool) l1 l2 :
+  Permutation l1 l2 -> length (filter f l1) = length (filter f l2).
+Proof.
+  induction 1 as [|x l l' _ IH|x y l|l l' l'' _ IH1 _ IH2]; cbn [filter].
+  - reflexivity.
+  - destruct (f x); cbn [length]; rewrite IH; reflexivity.
+  - destruct (f x), (f y); reflexivity.
+  - rewrite IH1. exact IH2.
+Qed.
+
+Lemma same_keys_b_perm l1 l2 : Permutation l1 l2 -> same_keys_b l1 l2 = true.
+Proof.
+  intros H. unfold same_keys_b. rewrite (Permutation_length H), Nat.eqb_refl. cbn [andb].
+  apply forallb_forall. intros k _. unfold count_key. rewrite (perm_filter_length _ _ _ H). apply Nat.eqb_refl.
+Qed.
+
+Lemma create_fixed_dates_b s ac ts part :
+  txn_create_fixed s = MOk ts -> st_accrual s = Some ac ->
+  new_partition (mkPeriod (ac_start ac) (ac_end ac)) (ac_interval ac) 0 = POk part ->
+  dates_b (st_date s) (st_desc s) (ac_account ac) (end_dates part) (st_bookings s) ts = true.
+Proof.
+  intros H Hac Hpart. apply txn_create_inv in H. destruct H as [ps [Hps H]]. rewrite Hac in H.
+  destruct H as [_ H]. unfold dates_b.
+  rewrite (expand_postings_fixed_keys _ ac part ps ts Hpart H). cbn [t_date t_desc].
+  apply same_keys_b_perm. exact (postings_create_keys _ _ _ _ _ Hps).
+Qed.
+
+(* The executable statement accepts everything the repaired model returns. *)
+Lemma model_meets_spec s ac ts part :
+  txn_create_fixed s = MOk ts -> st_accrual s = Some ac ->
+  new_partition (mkPeriod (ac_start ac) (ac_end ac)) (ac_interval ac) 0 = POk part ->
+  accrual_verdict s ac (end_dates part) ts = 0.
+Proof.
+  intros H Hac Hpart.
+  destruct (model_meets_spec_partial s ac (end_dates part) ts H Hac) as [E|E]; [exact E|].
+  exfalso. unfold accrual_verdict in E.
+  rewrite (create_fixed_dates_b s ac ts part H Hac Hpart) in E. cbn [negb] in E.
+  destruct (negb (forallb (fun t => balanced_b (t_postings t)) ts)); [discriminate|].
+  destruct (negb (conserve_b (st_bookings s) ts)); [discriminate|].
+  destruct (negb (in_bookings_b (ac_account ac) (st_bookings s)) && negb (accrual_zero_b (ac_account ac) ts)); [discriminate|].
+  destruct (negb (targets_b (st_targets s) ts)); discriminate.
+Qed.
+
+
+(* ---------------------------------------------------------------- soundness of clause 4 *)
+
+Lemma key_eqb_eq k1 k2 : key_eqb k1 k2 = true <-> k1 = k2.
+Proof.
+  destruct k1 as [[[d1 s1] a1] c1], k2 as [[[d2 s2] a2] c2]. unfold key_eqb.
+  rewrite !andb_true_iff, Z.eqb_eq, !s_eqb_eq, a_eqb_eq. split.
+  - intros [[[H1 H2] H3] H4]. subst. reflexivity.
+  - intros H. injection H as H1 H2 H3 H4. auto.
+Qed.
+
+Lemma count_key_cons k x l : count_key k (x :: l) = ((if key_eqb k x then 1 else 0) + count_key k l)%nat.
+Proof. unfold count_key. cbn [filter]. destruct (key_eqb k x); reflexivity. Qed.
+
+Lemma count_key_app k l1 l2 : count_key k (l1 ++ l2) = (count_key k l1 + count_key k l2)%nat.
+Proof. unfold count_key. rewrite filter_app, app_length. reflexivity. Qed.
+
+Lemma count_pos_in k l : (0 < count_key k l)%nat -> In k l.
+Proof.
+  induction l as [|x r IH]; [cbn; lia|]. rewrite count_key_cons.
+  destruct (key_eqb k x) eqn:E; [apply key_eqb_eq in E; subst; left; reflexivity|].
+  intros H. right. apply IH. lia.
+Qed.
+
+Lemma same_counts_perm : forall l1 l2,
+  length l1 = length l2 -> (forall k, In k l1 -> count_key k l1 = count_key k l2) -> Permutation l1 l2.
+Proof.
+  induction l1 as [|x r IH]; intros l2 Hlen Hc.
+  - destruct l2; [constructor|discriminate].
+  - assert (Hin : In x l2).
+    { apply count_pos_in. rewrite <- (Hc x (or_introl eq_refl)). rewrite count_key_cons.
+      replace (key_eqb x x) with true by (symmetry; apply key_eqb_eq; reflexivity). lia. }
+    apply in_split in Hin. destruct Hin as [a [b Hl2]]. subst l2.
+    apply Permutation_cons_app. apply IH.
+    + rewrite app_length in *. cbn [length] in *. lia.
+    + intros k Hk. specialize (Hc k (or_intror Hk)).
+      rewrite count_key_cons, count_key_app, count_key_cons in Hc. rewrite count_key_app. lia.
+Qed.
+
+Lemma same_keys_b_sound l1 l2 : same_keys_b l1 l2 = true -> Permutation l1 l2.
+Proof.
+  unfold same_keys_b. intros H. apply andb_true_iff in H. destruct H as [Hl Hc].
+  apply Nat.eqb_eq in Hl. rewrite forallb_forall in Hc.
+  apply same_counts_perm; [exact Hl|]. intros k Hk. apply Nat.eqb_eq. exact (Hc k Hk).
+Qed.
+
+Lemma all_some_inv {A} (l : list (option A)) ks : all_some l = Some ks -> l = map Some ks.
+Proof.
+  revert ks. induction l as [|x r IH]; intros ks H; cbn [all_some] in H.
+  - injection H as H. subst ks. reflexivity.
+  - destruct x as [x|]; [|discriminate]. destruct (all_some r) as [kr|]; [|discriminate].
+    injection H as H. subst ks. cbn [map]. rewrite (IH kr eq_refl). reflexivity.
+Qed.
+
+(* clause 4: every generated transaction is a pair with the accrual account, and the multiset of
+   (date, description, leg account, commodity) is the expected one: per side of every booking
+   line one entry per period end (income/expense side) or one at the original date *)
+Lemma dates_b_sound date desc acc ends bs ts :
+  dates_b date desc acc ends bs ts = true ->
+  exists ks, map (observed_key acc) ts = map Some ks /\ Permutation (expected_keys date desc ends bs) ks.
+Proof.
+  unfold dates_b. destruct (all_some (map (observed_key acc) ts)) as [ks|] eqn:E; [|discriminate].
+  intros H. exists ks. split; [exact (all_some_inv _ _ E)|exact (same_keys_b_sound _ _ H)].
+Qed.
+
+Lemma verdict_sound_dates s ac ends ts :
+  accrual_verdict s ac ends ts = 0 ->
+  exists ks, map (observed_key (ac_account ac)) ts = map Some ks /\
+             Permutation (expected_keys (st_date s) (st_desc s) ends (st_bookings s)) ks.
+Proof.
+  unfold accrual_verdict. intros H.
+  destruct (negb (forallb (fun t => balanced_b (t_postings t)) ts)); [discriminate|].
+  destruct (negb (conserve_b (st_bookings s) ts)); [discriminate|].
+  destruct (negb (in_bookings_b (ac_account ac) (st_bookings s)) && negb (accrual_zero_b (ac_account ac) ts)); [discriminate|].
+  destruct (dates_b (st_date s) (st_desc s) (ac_account ac) ends (st_bookings s) ts) eqn:E; cbn [negb] in H; [|discriminate].
+  exact (dates_b_sound _ _ _ _ _ _ E).
 Qed.
 
 (* ---------------------------------------------------------------- the pinned code *)
